@@ -215,7 +215,11 @@ def generate(tier):
                     cases.append(c)
     # the same probes with decoy `core` / `std` modules in scope of the derive (a bound written with a relative path would name a decoy trait that every type implements)
     from .common import decoy_layer
-    cases += decoy_layer([c for c in cases if c is not None], 150)
+    base = [c for c in cases if c is not None]
+    cases += decoy_layer(base, 100)
+    # (the supertrait predicates only show against a conditional partner: all one-parameter states with a conditional hand-written partner)
+    from .common import with_decoys
+    cases += [d for d in (with_decoys(c) for c in base if c.key.endswith('|cond') and ',' not in c.key.split('|')[4] and c.key.split('|')[4] in ('0', '1')) if d is not None]
     seen, out = set(), []
     for c in cases:
         if c.key not in seen:
